@@ -85,7 +85,7 @@ def arith_rule(ck, prog):
         p = cval(prog, f"{mod}::M")
         H = 2 * p - 1 if info["lazy"] else p - 1
         ops = list(ARITH_OPS)
-        if info["lazy"]:
+        if info["mont"]:
             ops += [("core::ops::arith::Mul", "mul", 2, {"P[a*b]": 1}, 2**64),
                     ("winter_math::field::traits::FieldElement", "square", 1, {"P[a*a]": 1}, 2**64)]
 
@@ -95,7 +95,7 @@ def arith_rule(ck, prog):
         # conversions and fast paths whose reduction is linear in the operands (operand kinds: E element by value, R element by reference,
         # an integer = raw machine integer with that maximum)
         r2 = prog.consts_by_name.get(f"{mod}::R2")
-        if fname == "f62" and r2:
+        if info["mont"] and r2:
             ops += [(None, "new", [2**64 - 1], {"a": int(r2[0]["scalar"])}, 2**64),
                     ("winter_math::field::traits::StarkField", "as_int", ["R"], {"a": 1}, 2**64)]
         if fname == "f64":
@@ -133,9 +133,13 @@ def arith_rule(ck, prog):
                     li.atom(a_, 0, H * H)
             want = li.canon(dict(want0))
             bad, unknown = None, 0
+            rng_bad = None
             for env, imprecise in outs:
                 r = env.get(0)
                 v = r[2][0] if isinstance(r, tuple) and r and r[0] == "adt" and r[2] else r
+                top_ = (p - 1) if meth == "as_int" else H
+                if isinstance(v, IV) and not (0 <= v.lo and v.hi <= top_):
+                    rng_bad = rng_bad or (v.lo, v.hi)
                 got = li.canon(lin_scale(v.lin, scale)) if isinstance(v, IV) and v.lin is not None and not v.weak else None
                 if got is None or imprecise:
                     unknown += 1
@@ -149,6 +153,11 @@ def arith_rule(ck, prog):
                 proven.add(fn.id)
             for nn in li.inlined:
                 ck.analysed["functions"].add(nn)
+            if bad is None:
+                ck.ob("ARITH", key + ":range", rng_bad is None,
+                      f"{fname}::{meth}: on every path the stored integer lies in {'[0, M) (canonical)' if meth == 'as_int' else ('[0, 2M)' if info['lazy'] else '[0, M)')} "
+                      "(interval of the exact form under the path's facts)", loc=fn.loc(),
+                      detail=None if rng_bad is None else {"a path stores a value in": list(rng_bad)})
             what = {"add": "a + b", "sub": "a - b", "neg": "-a", "double": "2a", "mul": "a*b (after multiplying the result by 2^64)",
                     "square": "a*a (after multiplying the result by 2^64)", "mul_small": "a*b (b any u32)",
                     "new": "the Montgomery image of the integer" if info["mont"] else "the integer",
@@ -163,7 +172,7 @@ def arith_rule(ck, prog):
     li.atom("b", 0, 2**64 - 2**32)
     cs = li.wrap_cases("sub", IV({"a": 1}, 0, 2**64 - 2**32), IV({"b": 1}, 0, 2**64 - 2**32), "u64")
     ck.control("ARITH: a wrapping subtraction that can borrow yields two cases with different residues", len(cs) == 2 and li.canon(cs[0][0].lin) != li.canon(cs[1][0].lin))
-    ck.floor("ARITH: operations decided", n, 16)
+    ck.floor("ARITH: operations decided", n, 19)
     return proven
 
 
